@@ -47,6 +47,7 @@ class Contract:
         self.provider_requires = dict(kw.pop("provider_requires", {}))  # provider name -> [exprs over idx, args, locals]
         self.provider_hints = dict(kw.pop("provider_hints", {}))        # provider name -> [ghost statements]
         self.pure_calls = list(kw.pop("pure_calls", []))   # method names assumed pure & provider-free (lenient only)
+        self.variants = list(kw.pop("variants", []))      # [{name, params, requires, ensures, raises, ...}] type cases
         self.source = kw.pop("source", qual)              # qualified name of the def in `file` (inherited methods)
         self.lenient = kw.pop("lenient", False)           # untracked values become havocs (Unknown) instead of errors
         self.asserts = kw.pop("asserts", "prove")         # 'prove': code asserts are obligations; 'raise': run-time checks
@@ -65,6 +66,7 @@ class Registry:
         self.lemmas = {}
         self.providers = {}
         self.axioms = []
+        self.named_tuples = {}
         self.opaque_methods = {}
         self.opaque_attrs = {}
 
@@ -80,6 +82,29 @@ class Registry:
     def spec_fn(self, name, fn):
         """fn(ex, st, *vals) -> Val : a specification-only function usable in contract expressions."""
         self.spec_fns[name] = fn
+
+    def named_tuple(self, name, tup):
+        self.named_tuples[name] = tup
+
+    def variant(self, c, i):
+        """The contract c specialised to its i-th variant (type case)."""
+        import copy
+        v = c.variants[i]
+        d = copy.copy(c)
+        d.params = dict(c.params)
+        d.params.update(v.get("params", {}))
+        d.requires = list(c.requires) + list(v.get("requires", []))
+        d.ensures = list(c.ensures) + list(v.get("ensures", []))
+        d.raises = list(c.raises) + list(v.get("raises", []))
+        d.may_raise = list(c.may_raise) + list(v.get("may_raise", []))
+        d.modifies = list(v.get("modifies", c.modifies))
+        d.isinstance_map = dict(c.isinstance_map)
+        d.isinstance_map.update(v.get("isinstance_map", {}))
+        if "returns" in v:
+            d.returns = v["returns"]
+        d.variants = []
+        d.variant_name = v["name"]
+        return d
 
     def opaque_method(self, tname, method, returns, args=()):
         """A pure, deterministic method of an opaque (user) type: an uninterpreted function of receiver and args (A2)."""
@@ -144,5 +169,6 @@ klass = REG.klass
 contract = REG.contract
 spec_fn = REG.spec_fn
 provider = REG.provider
+named_tuple = REG.named_tuple
 opaque_method = REG.opaque_method
 opaque_attr = REG.opaque_attr
